@@ -195,6 +195,12 @@ def run(ctx, focus, n_random_quick, n_random_thorough, max_actors=4, max_ops=6, 
         n_out += 1
         if any(o["end"] == "undefined" for o in outs[i]):
             continue  # the program can reach behaviour the semantics leaves undefined
+        if io["end"] in ("abort", "signal"):
+            # an ill-formed program stopped by an xbt_assert: the S4U layer may assert in the actor itself, before the simcall
+            # and before the other actors of the round have observed their answers, where the semantics aborts in the handler.
+            # The trace validation above has accepted the run (TEnd allows both places); the observations are not comparable
+            ctx.cov["aborting_runs_not_compared"] = ctx.cov.get("aborting_runs_not_compared", 0) + 1
+            continue
         ok = any(o["obs"] == io["obs"] and o["ov"] == io["ov"] and (o["end"] == io["end"] or (o["end"] == "abort" and io["end"] == "signal"))
                  for o in outs[i])
         if not ok:
